@@ -188,10 +188,84 @@ def fh(x: float) -> str:
     return float(x).hex()
 
 
-def model_table(seed: int) -> Table:
-    """Representatives of the model's symbols; the seed picks among several per symbol.  All
-    numbers are exact in float32, in 1/10000 (time) and in six decimals, so that every encoding
-    must return them unchanged."""
+def f32(x: float) -> float:
+    """The float32 nearest to x, as a double."""
+    return struct.unpack('<f', struct.pack('<f', x))[0]
+
+
+def wire_values() -> dict:
+    """Values found by search, not listed by hand: representable in the wire type, yet not exact in
+    double arithmetic on the way there.
+      ticks   TIME is a count n of 1/10000 s; n / 10000.0 * 10000.0 lands one ulp below n for these n
+              (so anything but rounding to nearest loses a tick); the first ones, one near 10^6, the
+              largest one below 2^31, and the int32 bounds themselves
+      f32     float32 values whose decimal spelling is not exact (0.1f read back as a double is
+              0.10000000149011612), the first ones of j / 10, plus the largest, the smallest normal
+              and the smallest subnormal float32"""
+    ticks = []
+    n = 1
+    while len(ticks) < 12:
+        if int(n / 10000.0 * 10000.0) != n:
+            ticks.append(n)
+        n += 1
+    near = next(n for n in range(10 ** 6, 2 * 10 ** 6) if int(n / 10000.0 * 10000.0) != n)
+    top = next(n for n in range(2 ** 31 - 1, 2 ** 31 - 10 ** 6, -1) if int(n / 10000.0 * 10000.0) != n)
+    inexact = []
+    j = 1
+    while len(inexact) < 12:
+        if f32(j / 10) != j / 10:
+            inexact.append(f32(j / 10))
+        j += 1
+    return {'ticks': ticks, 'near': near, 'top': top, 'tmax': 2 ** 31 - 1, 'tmin': -2 ** 31,
+            'f32': inexact, 'fmax': f32(3.4028234663852886e38), 'fnorm': f32(1.1754943508222875e-38),
+            'fsub': f32(1.401298464324817e-45)}
+
+
+WIRE = wire_values()
+
+
+def model_table(seed: int, kind: str = 'both') -> Table:
+    """Representatives of the model's symbols; the seed picks among several per symbol.
+    kind 'both': numbers exact in float32, in 1/10000 (time) and in six decimals, so that every
+    encoding must return them unchanged (builder steps).  Export cases use the table of their
+    encoding: 'bin' - boundary values of each wire type and representable values whose conversion
+    is inexact in double arithmetic (WIRE); 'kv2' - values the text keeps exactly (six decimals,
+    integers of any size, repr for time and matrices) but no 32-bit wire type could."""
+    tb = _base_table(seed)
+    k = seed % 3
+    pick = lambda *xs: xs[k % len(xs)]
+    if kind == 'bin':
+        W = WIRE
+        fa, fb, fc, fd = W['f32'][k], -W['f32'][k + 3], pick(W['fmax'], W['fsub'], -W['fnorm']), W['f32'][k + 6]
+        tb.add_val('m1', T_TIME, ('m', fh(pick(W['ticks'][0], -W['ticks'][4], W['top']) / 10000.0)))
+        tb.add_val('m2', T_TIME, ('m', fh(pick(-W['ticks'][1], W['tmax'], W['tmin']) / 10000.0)))
+        tb.add_val('f1', T_FLOAT, ('f', fh(fa)))
+        tb.add_val('f2', T_FLOAT, ('f', fh(fc)))
+        tb.add_val('w1', T_VEC2, ('w', fh(fa), fh(fb)))
+        tb.add_val('x1', T_VEC3, ('x', fh(fb), fh(fc), fh(fd)))
+        tb.add_val('z1', T_VEC4, ('z', fh(fd), fh(fa), fh(fb), fh(-fc)))
+        tb.add_val('g1', T_ANGLE, ('g', fh(fa), fh(f32(359.9)), fh(fd)))
+        tb.add_val('q1', T_QUAT, ('q', fh(fb), fh(fa), fh(fd), fh(f32(0.7))))
+        tb.add_val('r1', T_MATRIX, ('r',) + tuple(fh(x) for x in (fa, fb, fc, fd, -fa, f32(1e-3), f32(123456.789), -fd, fb)))
+        tb.add_val('i1', T_INT, ('i', pick(2147483647, -2147483648, 2147483646)))
+        tb.add_val('c1', T_COLOR, ('c',) + pick((255, 0, 255, 0), (0, 255, 0, 255), (254, 1, 128, 127)))
+    elif kind == 'kv2':
+        d6 = lambda x: float('%.6f' % x)
+        tb.add_val('m1', T_TIME, ('m', fh(pick(0.1 + 0.2, 1e-07, -123456.789012345))))
+        tb.add_val('m2', T_TIME, ('m', fh(pick(-1 / 3, 2.0 ** 40 + 0.5, 0.0003))))
+        tb.add_val('f1', T_FLOAT, ('f', fh(pick(0.1, -0.000001, 123456.654321))))
+        tb.add_val('f2', T_FLOAT, ('f', fh(pick(-0.7, 99999.999999, 0.3))))
+        tb.add_val('w1', T_VEC2, ('w', fh(0.1), fh(pick(-0.2, 0.000001, 1234.5678))))
+        tb.add_val('x1', T_VEC3, ('x', fh(0.3), fh(-0.7), fh(d6(pick(1 / 3, 2 / 3, -1 / 7)))))
+        tb.add_val('z1', T_VEC4, ('z', fh(0.1), fh(0.2), fh(0.3), fh(d6(pick(0.123456, -9.87654321, 1e-6)))))
+        tb.add_val('g1', T_ANGLE, ('g', fh(0.1), fh(359.999999), fh(d6(pick(12.345678, 0.000001, 180.1)))))
+        tb.add_val('q1', T_QUAT, ('q', fh(0.1), fh(-0.2), fh(0.3), fh(0.927362)))
+        tb.add_val('r1', T_MATRIX, ('r',) + tuple(fh(x) for x in (0.1, 1 / 3, -2 / 3, 1e-9, 0.7, 123456789.123, -0.3, 5e-324, 1.0)))
+        tb.add_val('i1', T_INT, ('i', pick(2 ** 40, -2 ** 63, 10 ** 20)))
+    return tb
+
+
+def _base_table(seed: int) -> Table:
     k = seed % 3
     tb = Table()
     pick = lambda *xs: xs[k % len(xs)]
@@ -711,7 +785,8 @@ def replay_edges(edge_file: str, out: hlib.RecWriter, stats: dict) -> None:
     seed = hlib.seed()
     for e in edges:
         a = e['a']
-        tb = model_table(seed)
+        tkind = a['enc']['kind'] if a['op'] == 'export' else 'both'
+        tb = model_table(seed, tkind)
         g0 = init['g']
         w = World(tb, g0)
         path = paths[key(e['s'])]
@@ -724,6 +799,7 @@ def replay_edges(edge_file: str, out: hlib.RecWriter, stats: dict) -> None:
             rec = round_trip(w.el[w.root], e['s']['g'], a['enc'], a['uni'], tb, 'edge')
             rec['hist'] = path
             rec['seed'] = seed
+            rec['tkind'] = tkind
             out.write(rec)
             stats['exports'] = stats.get('exports', 0) + 1
         else:
@@ -759,6 +835,10 @@ def random_value(rng: random.Random, t: int, kind: str) -> tuple:
     if t == T_TIME:
         if kind == 'kv2' and rng.random() < 0.5:
             return ('m', fh(float('%.6f' % rng.uniform(0, 5000))))
+        if kind == 'bin':       # any tick count of the wire type, the inexact-in-double ones and the bounds included
+            n = rng.choice([rng.choice(WIRE['ticks']), -rng.choice(WIRE['ticks']), WIRE['near'], WIRE['top'], WIRE['tmax'], WIRE['tmin'],
+                            rng.randint(-2 ** 31, 2 ** 31 - 1), rng.randint(-10 ** 5, 10 ** 5)])
+            return ('m', fh(n / 10000.0))
         return ('m', fh(rng.randint(-10 ** 6, 10 ** 6) / 16.0))
     if t == T_COLOR:
         return ('c',) + tuple(rng.randrange(256) for _ in range(4))
@@ -983,7 +1063,7 @@ def main() -> None:
         rec = rp['record']
         out = hlib.RecWriter(sys.argv[3])
         if rec['k'] == 'rt':
-            tb = Table.load(rec['conc']) if 'conc' in rec else model_table(rec.get('seed', 0))
+            tb = Table.load(rec['conc']) if 'conc' in rec else model_table(rec.get('seed', 0), rec.get('tkind', 'both'))
             if 'hist' in rec and 'conc' not in rec:
                 # a model case: rebuild it through the same public calls, from the model's initial graph
                 g0 = {'root': rec['g']['root'],
